@@ -356,23 +356,31 @@ func (r *rig) runBatch(batch int, hs [][]hop, distinctRequests bool, cliSample m
 		r.viol("machinery", "", "cannot start gnmi_collector: %v", err)
 		return
 	}
-	defer func() {
-		cmd.Process.Kill()
-		cmd.Wait()
-	}()
 	caddr := fmt.Sprintf("127.0.0.1:%d", port)
+	exited := make(chan error, 1)
+	go func() { exited <- cmd.Wait() }()
+	defer func() { cmd.Process.Kill(); <-exited; exited <- nil }()
 	up := false
-	for i := 0; i < 300; i++ {
+wait:
+	for i := 0; i < 1800; i++ { // up to 3 minutes on a loaded machine; no verdict depends on this
+		select {
+		case err := <-exited:
+			exited <- err
+			r.viol("collector-exited", "", "gnmi_collector exited while starting (%v); stderr: %s", err, stderr.String())
+			return
+		default:
+		}
 		c, err := net.DialTimeout("tcp", caddr, 200*time.Millisecond)
 		if err == nil {
 			c.Close()
 			up = true
-			break
+			break wait
 		}
 		time.Sleep(100 * time.Millisecond)
 	}
 	if !up {
-		r.viol("collector-not-serving", "", "gnmi_collector did not open its port; stderr: %s", stderr.String())
+		// alive but not serving after 3 minutes: the sandbox is overloaded, not a verdict
+		r.viol("machinery", "", "gnmi_collector did not open its port within 3 minutes (still running); stderr: %s", stderr.String())
 		return
 	}
 	// (a) client-library view of every slot, in parallel
@@ -430,12 +438,12 @@ func (r *rig) checkSlot(caddr, target string, h []hop, withCLI bool) {
 	want := model(h)
 	c := client.New()
 	defer c.Close()
-	q := client.Query{Addrs: []string{caddr}, Target: target, Type: client.Stream, Queries: []client.Path{{"*"}}, TLS: &tls.Config{InsecureSkipVerify: true}, Timeout: 20 * time.Second}
+	q := client.Query{Addrs: []string{caddr}, Target: target, Type: client.Stream, Queries: []client.Path{{"*"}}, TLS: &tls.Config{InsecureSkipVerify: true}, Timeout: 90 * time.Second}
 	errC := make(chan error, 1)
 	ctx, cancel := context.WithCancel(context.Background())
 	defer cancel()
 	go func() { errC <- c.Subscribe(ctx, q) }()
-	deadline := time.Now().Add(120 * time.Second)
+	deadline := time.Now().Add(300 * time.Second)
 	var got map[string]string
 	seen := false
 	for time.Now().Before(deadline) {
@@ -445,10 +453,20 @@ func (r *rig) checkSlot(caddr, target string, h []hop, withCLI bool) {
 			return
 		default:
 		}
+		// barrier = the client's sync (every leaf of the unordered initial walk
+		// has arrived) AND the sentinel (everything streamed before it has
+		// arrived: per-subscriber delivery is FIFO by first pending insertion)
+		synced := false
+		select {
+		case <-c.Synced():
+			synced = true
+		default:
+		}
 		got, seen = leavesOf(c, target)
-		if seen {
+		if seen && synced {
 			break
 		}
+		seen = false
 		time.Sleep(20 * time.Millisecond)
 	}
 	if !seen {
@@ -474,8 +492,8 @@ func (r *rig) checkSlot(caddr, target string, h []hop, withCLI bool) {
 	outs := map[string]string{}
 	for name, args := range forms {
 		for _, dt := range []string{"single", "group"} {
-			full := append(append([]string{}, args...), "-tls_skip_verify", "-dt", dt, "-timeout", "20s", "-logtostderr=false", "-stderrthreshold=FATAL", "-log_dir", filepath.Join(r.work))
-			cctx, ccancel := context.WithTimeout(context.Background(), 60*time.Second)
+			full := append(append([]string{}, args...), "-tls_skip_verify", "-dt", dt, "-timeout", "90s", "-logtostderr=false", "-stderrthreshold=FATAL", "-log_dir", filepath.Join(r.work))
+			cctx, ccancel := context.WithTimeout(context.Background(), 300*time.Second)
 			o, err := exec.CommandContext(cctx, filepath.Join(r.bindir, "gnmi_cli"), full...).CombinedOutput()
 			ccancel()
 			if err != nil {
